@@ -89,6 +89,10 @@ def run(tier, seed, opens):
                 continue
             for cond in (b'\x01', b''):
                 one([cond] + list(seq) + [81])
+            if n <= (4 if tier == 'quick' else 6):
+                # conditions of any length: IF / NOTIF cast the item to a truth value (no 4-byte limit, negative zero is false)
+                for cond in (b'\x01\x02\x03\x04\x05', b'\x00' * 5, b'\x00\x00\x00\x00\x80', b'\x02' + b'\x11' * 32, b'\x00\x00\x00\x80', b'\x80'):
+                    one([cond] + list(seq) + [81])
     res = {'contract': 'bitcoinlib.scripts.Script.evaluate[bounded]', 'target': 'bitcoinlib.scripts.Script.evaluate', 'status': 'ok',
            'bounded': 'all scripts of <= %d pushes from a %d-item alphabet + <= %d opcodes, and all IF/NOTIF/ELSE/ENDIF skeletons of length <= %d'
                       % (maxpush, len(PUSHES), maxops, maxflow),
